@@ -17,7 +17,13 @@ RULE = ("(a) random pairs of consistently typed feature structures (atomic featu
         "carries the feature n as a constant or a variable shared between head and body) must agree with the plain CFG "
         "obtained by instantiating the variables over the domain; returned parse trees are checked against the "
         "underlying CFG. Non-trivial: structures with >=3 leaves / grammars with >=3 productions.")
-THEOREMS = []
+LEVEL = "proof"
+THEOREMS = ["Pfl.FS.unify_none_iff",
+            "Pfl.FS.unify_facts",
+            "Pfl.FS.unify_wt",
+            "Pfl.FS.unify_comm",
+            "Pfl.CFG.cfgMem_iff",
+            "Pfl.CFG.treeValid_sound"]
 VALS = ["s", "p"]
 
 
